@@ -101,7 +101,10 @@ class C08(runner.Prop):
             for tag, call in (('none', lambda: spec.transform()), ('identity', lambda: spec.transform(lambda x: x, lambda x: x)),
                               ('identity_node_only', lambda: optree.treespec_transform(spec, lambda x: x))):
                 try:
-                    same_spec(ctx, f'transform/{tag}', call(), spec)
+                    tr = call()
+                    same_spec(ctx, f'transform/{tag}', tr, spec)
+                    if tr.namespace != spec.namespace:
+                        ctx.fail(f'transform/{tag}/namespace', f'{tr.namespace!r} vs {spec.namespace!r}')
                 except Exception as e:  # noqa: BLE001
                     ctx.fail(f'transform/{tag}/raises', f'{type(e).__name__}: {e}')
             # the two nullary constructors carry the flag they were given
